@@ -1600,7 +1600,7 @@ def list_move_scenarios(ctx, out):
             if not holders:
                 break
             h = rng.choice(holders)
-            k = rng.choice(['swap', 'swap', 'self', 'insert', 'pop', 'append'])
+            k = rng.choice(['swap', 'swap', 'self', 'insert', 'pop', 'pop', 'append', 'assign', 'assign'])
             L = h.kids
             try:
                 if k == 'swap' and len(L) >= 2:
@@ -1621,6 +1621,16 @@ def list_move_scenarios(ctx, out):
                     i = rng.randrange(len(L))
                     L.pop(i)
                     hist.append(['pop', h.name, i])
+                elif k == 'assign':
+                    # whole-list assignment with a list that OVERLAPS the current content (some kept, reordered, some new)
+                    keep = [x for x in list(L) if rng.random() < 0.7]
+                    rng.shuffle(keep)
+                    fresh = []
+                    if rng.random() < 0.5:
+                        fresh.append(N(name=f'n{count[0]}'))
+                        count[0] += 1
+                    h.kids = keep + fresh
+                    hist.append(['assign', h.name, [x.name for x in keep + fresh]])
                 elif k == 'append':
                     c = N(name=f'n{count[0]}')
                     count[0] += 1
